@@ -46,6 +46,8 @@ Unusual == {
   "export class K { static { K.v = <A>{f()}</A>; } get g() { return <A>{h()}</A>; } m(p = <B>{q()}</B>) { return p; } }",
   "lbl: for (const i of [<A>{f()}</A>]) { switch (i) { case 1: x = <B>{g()}</B>; break lbl; default: y = <C>{h()}</C>; } }",
   "export const s = (a = <A>{f()}</A>, b = () => <B>{g()}</B>) => { if (a) return <C>{h()}</C>; else return <D>{k()}</D>; };",
+  "export const s = ({ icon = <i/> }) => icon;", "export const s = ([a = <></>]) => a;", "export const s = ({ icon = <svg:use href=\"#i\"/> } = {}) => icon;",
+  "export function s({ a = <b/>, ...rest }, [c = <C>{f()}</C>] = []) { return [a, c, rest]; }", "export const s = ({ [<k/>.key]: v }) => v;",
   "export const s = <C>{function* () {}}</C>;", "export const s = <C>{class {}}</C>;", "export const s = <div>{`a${b}`}</div>;",
   "export const s = <div a='&quot;&amp;' b=\"\\n\">&lt;&#x41;</div>;",
   "export const s = <a href=\"C:\\users\\me\" sep=\"\\\" pattern=\"(a|b)\\1\" q='\\x' />;",
